@@ -394,7 +394,7 @@ class _CKM(Entry):
             init = {"array": [[draw(st.integers(-16, 16)) / 2.0, draw(st.integers(-16, 16)) / 2.0] for _ in range(k)]}
         return dict(cls=self.name, params=dict(n_clusters=k, strategy=draw(st.sampled_from(["distance", "gain"])), init=init,
                                                kmeans0=draw(st.booleans()), random_state=draw(st.one_of(st.none(), st.integers(0, 9))),
-                                               max_iter=draw(st.sampled_from([4, 10])), n_init=draw(st.sampled_from([1, 1, 3])),
+                                               max_iter=draw(st.sampled_from([4, 10])), n_init=draw(st.sampled_from([1, 3])),
                                                balanced_predictions=draw(st.booleans())))
 
     def data(self, draw):
